@@ -52,15 +52,21 @@ Properties/C06.vos Properties/C06.vok Properties/C06.required_vos: Properties/C0
 Proofs/EmitProofs.vo Proofs/EmitProofs.glob Proofs/EmitProofs.v.beautified Proofs/EmitProofs.required_vo: Proofs/EmitProofs.v Compiler/Emit.vo
 Proofs/EmitProofs.vio: Proofs/EmitProofs.v Compiler/Emit.vio
 Proofs/EmitProofs.vos Proofs/EmitProofs.vok Proofs/EmitProofs.required_vos: Proofs/EmitProofs.v Compiler/Emit.vos
-Properties/C15.vo Properties/C15.glob Properties/C15.v.beautified Properties/C15.required_vo: Properties/C15.v Compiler/Compile.vo Proofs/EmitProofs.vo
-Properties/C15.vio: Properties/C15.v Compiler/Compile.vio Proofs/EmitProofs.vio
-Properties/C15.vos Properties/C15.vok Properties/C15.required_vos: Properties/C15.v Compiler/Compile.vos Proofs/EmitProofs.vos
 Proofs/PassThroughProofs.vo Proofs/PassThroughProofs.glob Proofs/PassThroughProofs.v.beautified Proofs/PassThroughProofs.required_vo: Proofs/PassThroughProofs.v Compiler/Emit.vo Proofs/EmitProofs.vo
 Proofs/PassThroughProofs.vio: Proofs/PassThroughProofs.v Compiler/Emit.vio Proofs/EmitProofs.vio
 Proofs/PassThroughProofs.vos Proofs/PassThroughProofs.vok Proofs/PassThroughProofs.required_vos: Proofs/PassThroughProofs.v Compiler/Emit.vos Proofs/EmitProofs.vos
-Properties/C11.vo Properties/C11.glob Properties/C11.v.beautified Properties/C11.required_vo: Properties/C11.v Compiler/Compile.vo Proofs/EmitProofs.vo Proofs/PassThroughProofs.vo
-Properties/C11.vio: Properties/C11.v Compiler/Compile.vio Proofs/EmitProofs.vio Proofs/PassThroughProofs.vio
-Properties/C11.vos Properties/C11.vok Properties/C11.required_vos: Properties/C11.v Compiler/Compile.vos Proofs/EmitProofs.vos Proofs/PassThroughProofs.vos
+Proofs/EmitInv.vo Proofs/EmitInv.glob Proofs/EmitInv.v.beautified Proofs/EmitInv.required_vo: Proofs/EmitInv.v Compiler/Emit.vo Proofs/EmitProofs.vo
+Proofs/EmitInv.vio: Proofs/EmitInv.v Compiler/Emit.vio Proofs/EmitProofs.vio
+Proofs/EmitInv.vos Proofs/EmitInv.vok Proofs/EmitInv.required_vos: Proofs/EmitInv.v Compiler/Emit.vos Proofs/EmitProofs.vos
+Proofs/ParserShapeProofs.vo Proofs/ParserShapeProofs.glob Proofs/ParserShapeProofs.v.beautified Proofs/ParserShapeProofs.required_vo: Proofs/ParserShapeProofs.v Compiler/Compile.vo Proofs/EmitProofs.vo Proofs/PassThroughProofs.vo Proofs/EmitInv.vo
+Proofs/ParserShapeProofs.vio: Proofs/ParserShapeProofs.v Compiler/Compile.vio Proofs/EmitProofs.vio Proofs/PassThroughProofs.vio Proofs/EmitInv.vio
+Proofs/ParserShapeProofs.vos Proofs/ParserShapeProofs.vok Proofs/ParserShapeProofs.required_vos: Proofs/ParserShapeProofs.v Compiler/Compile.vos Proofs/EmitProofs.vos Proofs/PassThroughProofs.vos Proofs/EmitInv.vos
+Properties/C15.vo Properties/C15.glob Properties/C15.v.beautified Properties/C15.required_vo: Properties/C15.v Compiler/Compile.vo Proofs/EmitProofs.vo Proofs/ParserShapeProofs.vo
+Properties/C15.vio: Properties/C15.v Compiler/Compile.vio Proofs/EmitProofs.vio Proofs/ParserShapeProofs.vio
+Properties/C15.vos Properties/C15.vok Properties/C15.required_vos: Properties/C15.v Compiler/Compile.vos Proofs/EmitProofs.vos Proofs/ParserShapeProofs.vos
+Properties/C11.vo Properties/C11.glob Properties/C11.v.beautified Properties/C11.required_vo: Properties/C11.v Compiler/Compile.vo Proofs/EmitProofs.vo Proofs/PassThroughProofs.vo Proofs/ParserShapeProofs.vo
+Properties/C11.vio: Properties/C11.v Compiler/Compile.vio Proofs/EmitProofs.vio Proofs/PassThroughProofs.vio Proofs/ParserShapeProofs.vio
+Properties/C11.vos Properties/C11.vok Properties/C11.required_vos: Properties/C11.v Compiler/Compile.vos Proofs/EmitProofs.vos Proofs/PassThroughProofs.vos Proofs/ParserShapeProofs.vos
 Proofs/DynamicProofs.vo Proofs/DynamicProofs.glob Proofs/DynamicProofs.v.beautified Proofs/DynamicProofs.required_vo: Proofs/DynamicProofs.v Compiler/Emit.vo Proofs/EmitProofs.vo Proofs/PassThroughProofs.vo
 Proofs/DynamicProofs.vio: Proofs/DynamicProofs.v Compiler/Emit.vio Proofs/EmitProofs.vio Proofs/PassThroughProofs.vio
 Proofs/DynamicProofs.vos Proofs/DynamicProofs.vok Proofs/DynamicProofs.required_vos: Proofs/DynamicProofs.v Compiler/Emit.vos Proofs/EmitProofs.vos Proofs/PassThroughProofs.vos
@@ -163,9 +169,6 @@ Proofs/NukeProofs.vos Proofs/NukeProofs.vok Proofs/NukeProofs.required_vos: Proo
 Proofs/SrcMapProofs.vo Proofs/SrcMapProofs.glob Proofs/SrcMapProofs.v.beautified Proofs/SrcMapProofs.required_vo: Proofs/SrcMapProofs.v Compiler/SrcMap.vo
 Proofs/SrcMapProofs.vio: Proofs/SrcMapProofs.v Compiler/SrcMap.vio
 Proofs/SrcMapProofs.vos Proofs/SrcMapProofs.vok Proofs/SrcMapProofs.required_vos: Proofs/SrcMapProofs.v Compiler/SrcMap.vos
-Proofs/EmitInv.vo Proofs/EmitInv.glob Proofs/EmitInv.v.beautified Proofs/EmitInv.required_vo: Proofs/EmitInv.v Compiler/Emit.vo Proofs/EmitProofs.vo
-Proofs/EmitInv.vio: Proofs/EmitInv.v Compiler/Emit.vio Proofs/EmitProofs.vio
-Proofs/EmitInv.vos Proofs/EmitInv.vok Proofs/EmitInv.required_vos: Proofs/EmitInv.v Compiler/Emit.vos Proofs/EmitProofs.vos
 Proofs/TargetProofs.vo Proofs/TargetProofs.glob Proofs/TargetProofs.v.beautified Proofs/TargetProofs.required_vo: Proofs/TargetProofs.v Compiler/Emit.vo Proofs/EmitProofs.vo Proofs/EmitInv.vo Compiler/SrcMap.vo Proofs/SrcMapProofs.vo
 Proofs/TargetProofs.vio: Proofs/TargetProofs.v Compiler/Emit.vio Proofs/EmitProofs.vio Proofs/EmitInv.vio Compiler/SrcMap.vio Proofs/SrcMapProofs.vio
 Proofs/TargetProofs.vos Proofs/TargetProofs.vok Proofs/TargetProofs.required_vos: Proofs/TargetProofs.v Compiler/Emit.vos Proofs/EmitProofs.vos Proofs/EmitInv.vos Compiler/SrcMap.vos Proofs/SrcMapProofs.vos
